@@ -714,3 +714,104 @@ MUTANTS = [
     dict(name="benign: inner edge measured from the second centre", units=["get_dual_edge_lengths"], edits=[(U_, "dual_sites[indices[0]] - dual_sites[indices[1]]", "dual_sites[indices[1]] - dual_sites[indices[0]]")], expect="pass"),
     dict(name="lengths written to the previous position", units=["get_dual_edge_lengths"], edits=[(U_, "            dual_lengths[i] = np.linalg.norm(\n", "            dual_lengths[i - 1] = np.linalg.norm(\n")]),
 ]
+
+
+# ------------------------------------------------------------------------------------------------------------------ Mesh.from_triangulation (wiring)
+
+def run_from_triangulation(mutate=None):
+    """Mesh.from_triangulation / Mesh.compute_voronoi_areas_polygons: every derived field of the mesh is the result of the corresponding kernel applied to
+    THIS triangulation (and to the fields derived before), nothing else - so the mesh is a function of (sites, elements) alone (C14: a mesh restored from
+    the stored arrays equals the one recomputed from its triangulation; C07: dual sites / edge mesh / areas belong to the same triangulation).
+    The kernels are stubs that record their arguments (their own contracts are separate units)."""
+    _patch()
+    calls = {}
+    mut = [(o, n) for (m, o, n) in (mutate or []) if m == M_]
+    rb = {"np": _np_model(calls), "cupy": None}
+    rb.update(BUILTINS)
+    L = instrument.load(M_, rebind=rb, mutate=mut, vc=vcm.VC())
+
+    def body():
+        calls.clear()
+        log = []
+        N, T = SI(z3.Int("N")), SI(z3.Int("T"))
+        assume(N >= 3, T >= 2)
+        sites = SymArray.input("sites", (N, 2))
+        el = SymArray.input("elements", (T, 3), "i")
+        sub = bool(SB(z3.Bool("create_submesh")))
+        R = {k: type(k, (), {})() for k in ("BOUNDARY", "DUAL", "EDGE_MESH", "AREAS", "POLYGONS", "POLY_INDEX")}
+        R["EDGE_MESH"].edges, R["EDGE_MESH"].boundary_edge_indices = "EDGES", "BOUNDARY_EDGE_INDICES"
+        Mesh = L["Mesh"]
+
+        def rec(name, ret):
+            def f(*a, **k):
+                log.append((name, a, k))
+                return ret
+            return f
+        L.ns["generate_voronoi_vertices"] = rec("voronoi", R["DUAL"])
+        L.ns["get_voronoi_polygon_indices"] = rec("polygon_indices", R["POLY_INDEX"])
+        L.ns["compute_voronoi_polygon_areas"] = rec("polygon_areas", (R["AREAS"], R["POLYGONS"]))
+        L.ns["EdgeMesh"] = type("EdgeMeshStub", (), {"from_mesh": staticmethod(rec("edge_mesh", R["EDGE_MESH"]))})
+        real_fbi = Mesh.find_boundary_indices
+        Mesh.find_boundary_indices = staticmethod(rec("boundary", R["BOUNDARY"]))
+        got = {}
+        real_init = Mesh.__init__
+
+        def init(self_, *a, **kw):
+            import inspect
+            ba = inspect.signature(real_init).bind(self_, *a, **kw)      # positional or keyword: by parameter name
+            got.update({k: v for k, v in ba.arguments.items() if k != "self"})
+        Mesh.__init__ = init
+        try:
+            Mesh.from_triangulation(sites, el, create_submesh=sub)
+        finally:
+            Mesh.__init__, Mesh.find_boundary_indices = real_init, real_fbi
+
+        def same_arr(a, b):
+            return a is b or (isinstance(a, SymArray) and isinstance(b, SymArray) and a.ndim == b.ndim and bool(sym.quick_prove(sym.ctx().hyps(), z3.And(*[x.e == y.e for x, y in zip(a.shape, b.shape)]), 2000))
+                              and _elem_equal(a, b))
+        byname = {}
+        for nm, a, k in log:
+            byname.setdefault(nm, []).append((a, k))
+        check("C07.mesh_wiring.mesh_keeps_the_triangulation_it_was_given", z3.BoolVal(same_arr(got.get("sites"), sites) and same_arr(got.get("elements"), el)))
+        b = byname.get("boundary", [])
+        check("C07.mesh_wiring.boundary_sites_of_this_triangulation", z3.BoolVal(len(b) == 1 and len(b[0][0]) == 1 and same_arr(b[0][0][0], el) and got.get("boundary_indices") is R["BOUNDARY"]))
+        if not sub:
+            check("C07.mesh_wiring.no_submesh_when_not_requested", z3.BoolVal(all(got.get(k) is None for k in ("dual_sites", "edge_mesh", "areas", "voronoi_polygons"))
+                                                                               and not any(k in byname for k in ("voronoi", "edge_mesh", "polygon_areas"))))
+            return
+        v = byname.get("voronoi", [])
+        check("C07.mesh_wiring.circumcentres_of_this_triangulation", z3.BoolVal(len(v) == 1 and len(v[0][0]) == 2 and same_arr(v[0][0][0], sites) and same_arr(v[0][0][1], el)
+                                                                                 and got.get("dual_sites") is R["DUAL"]))
+        e = byname.get("edge_mesh", [])
+        check("C07.mesh_wiring.edge_mesh_of_this_triangulation_and_its_circumcentres",
+              z3.BoolVal(len(e) == 1 and len(e[0][0]) == 3 and same_arr(e[0][0][0], sites) and same_arr(e[0][0][1], el) and e[0][0][2] is R["DUAL"] and got.get("edge_mesh") is R["EDGE_MESH"]))
+        pi = byname.get("polygon_indices", [])
+        ok_pi = len(pi) == 1 and len(pi[0][0]) == 2 and same_arr(pi[0][0][0], el)
+        check("C07.mesh_wiring.cells_enumerate_the_triangles_around_each_site_of_this_triangulation", z3.BoolVal(ok_pi) if not ok_pi else sym.eq(SI.lift(pi[0][0][1]), N))
+        pa = byname.get("polygon_areas", [])
+        okpa = len(pa) == 1
+        if okpa:
+            a, k = pa[0]
+            names = ("sites", "dual_sites", "boundary", "edges", "boundary_edge_indices", "polygons")
+            kw = dict(zip(names, a))
+            kw.update(k)
+            okpa = (same_arr(kw.get("sites"), sites) and kw.get("dual_sites") is R["DUAL"] and kw.get("boundary") is R["BOUNDARY"] and kw.get("edges") == "EDGES"
+                    and kw.get("boundary_edge_indices") == "BOUNDARY_EDGE_INDICES" and kw.get("polygons") is R["POLY_INDEX"])
+        check("C07.mesh_wiring.cell_areas_from_the_derived_fields_of_this_mesh", z3.BoolVal(bool(okpa)))
+        check("C07.mesh_wiring.areas_and_polygons_in_their_roles", z3.BoolVal(got.get("areas") is R["AREAS"] and got.get("voronoi_polygons") is R["POLYGONS"]))
+    obls, n = explore(body)
+    return dict(obls=obls, paths=n, sources=[L.info()], consistent=sym.consistent())
+
+
+def _elem_equal(a, b):
+    idx = [SI(FreshInt("w")) for _ in range(a.ndim)]
+    hyp = [z3.And(i.e >= 0, i.e < n.e) for i, n in zip(idx, a.shape)]
+    return bool(sym.quick_prove(sym.ctx().hyps() + hyp, sym.eq(a.at(*idx), b.at(*idx)), 3000))
+
+
+MUTANTS += [
+    dict(name="edge mesh built from the circumcentres as sites", units=["Mesh.from_triangulation"], edits=[(M_, "edge_mesh = EdgeMesh.from_mesh(sites, elements, dual_sites)", "edge_mesh = EdgeMesh.from_mesh(dual_sites, elements, dual_sites)")]),
+    dict(name="areas and polygons swapped", units=["Mesh.from_triangulation"], edits=[(M_, "            areas, polygons = Mesh.compute_voronoi_areas_polygons(", "            polygons, areas = Mesh.compute_voronoi_areas_polygons(")]),
+    dict(name="cell areas from all edges as boundary edges", units=["Mesh.from_triangulation"], edits=[(M_, "boundary_edge_indices=edge_mesh.boundary_edge_indices,", "boundary_edge_indices=edge_mesh.edges,")]),
+    dict(name="submesh always created", units=["Mesh.from_triangulation"], edits=[(M_, "        if create_submesh:\n            dual_sites = generate_voronoi_vertices", "        if True:\n            dual_sites = generate_voronoi_vertices")]),
+]
